@@ -11,7 +11,13 @@
  *            <now>@<ent>+<ent>+...        readdir order; <ent> = <name-hex>=<atime>  or  <name-hex>=x  (stat fails)
  *   trace: comma separated events in program order:  u<path-hex>  (unlink called with this path)
  *                                                    s<byte-hex>  (one write of status bytes on fd 1)
- *                                                    o<path-hex>  (opendir), c (closedir), e<code> (main returned / _exit) */
+ *                                                    o<path-hex>  (opendir), c (closedir), e<code> (main returned / _exit)
+ * session 4 — read/write faults:  cases "Q <rscript> <wplan> <plan> [<scans>]", output "Q <rscript> <wplan> <plan> <scans> <trace>"
+ *   rscript: what the successive read() calls on the request pipe return, joined by '.' ("-" = none; after the last one: 0 = EOF):
+ *            d<hex> these bytes (a short read; "d" alone = returns 0, end of file), i = -1/EINTR, x = -1/EIO
+ *   wplan  : one byte per write() call on the answer pipe: 00 = writes the byte, 01 = -1/EINTR, 02 = -1/EPIPE (missing = 00)
+ *   trace  : additionally  i<byte-hex> (a write() of this byte failed with EINTR), f<byte-hex> (failed with EPIPE);
+ *            e1100 = _exit(100) */
 #include "hcommon.h"
 #include <dirent.h>
 #include <errno.h>
@@ -101,14 +107,42 @@ static int h_stat(const char *p, struct stat *st) {
   return 0;
 }
 
+/* scripted read()/write() outcomes (Q cases) */
+#define MAXRD 4096
+struct h_rd { char kind; size_t off, len; };
+static struct h_rd rds[MAXRD]; static int nrd, rd_pos; static size_t rd_off;
+static unsigned char rd_bytes[70000]; static size_t rd_nbytes;
+static unsigned char wplan_b[4096]; static size_t wplan_n, wplan_pos;
+static int io_mode;
+
 static ssize_t h_read(int fd, void *buf, size_t len) {
+  if (io_mode) {
+    if (rd_pos >= nrd) return 0;
+    struct h_rd *r = &rds[rd_pos];
+    if (r->kind == 'i') { rd_pos++; errno = EINTR; return -1; }
+    if (r->kind == 'x') { rd_pos++; errno = EIO; return -1; }
+    size_t k = r->len - rd_off;
+    if (k > len) k = len;
+    memcpy(buf, rd_bytes + r->off + rd_off, k);
+    rd_off += k;
+    if (rd_off >= r->len) { rd_pos++; rd_off = 0; }
+    return k;
+  }
   size_t k = in_n - in_pos;
   if (k > len) k = len;
   if (in_chunk > 0 && k > (size_t)in_chunk) k = in_chunk;
   memcpy(buf, in_p + in_pos, k); in_pos += k;
   return k;
 }
-static ssize_t h_write(int fd, const void *buf, size_t len) { ev('s', buf, len); return len; }
+static ssize_t h_write(int fd, const void *buf, size_t len) {
+  if (io_mode) {
+    int r = wplan_pos < wplan_n ? wplan_b[wplan_pos] : 0;
+    wplan_pos++;
+    if (r == 1) { ev('i', buf, len); errno = EINTR; return -1; }
+    if (r != 0) { ev('f', buf, len); errno = EPIPE; return -1; }
+  }
+  ev('s', buf, len); return len;
+}
 
 /* replace substdio.a's subfdins.o / subfdouts.o */
 static char h_inbuf[256], h_outbuf[256];
@@ -175,6 +209,47 @@ static void one(const unsigned char *m, size_t n, int chunk, const unsigned char
   fprintf(h_out, "e%d\n", rc);
 }
 
+/* read-script construction */
+static void rs_reset(void) { nrd = 0; rd_nbytes = 0; }
+static void rs_add(char kind, const unsigned char *p, size_t n) {
+  if (nrd >= MAXRD || rd_nbytes + n > sizeof rd_bytes) return;
+  if (kind == 'd' && n > 256) n = 256;            /* the program never asks for more than its 256-byte buffer */
+  rds[nrd].kind = kind; rds[nrd].off = rd_nbytes; rds[nrd].len = n;
+  if (n) memcpy(rd_bytes + rd_nbytes, p, n);
+  rd_nbytes += n; nrd++;
+}
+/* the bytes b[0..n) in reads of `chunk` bytes (0 = 256) */
+static void rs_chunks(const unsigned char *b, size_t n, int chunk) {
+  if (chunk <= 0 || chunk > 256) chunk = 256;
+  for (size_t i = 0; i < n; i += chunk) rs_add('d', b + i, n - i < (size_t)chunk ? n - i : (size_t)chunk);
+}
+
+static void one_io(const unsigned char *wp, size_t wn, const unsigned char *plan, size_t pn) {
+  h_in.p = 0; h_in.n = 256; h_outs.p = 0;
+  io_mode = 1; rd_pos = 0; rd_off = 0;
+  if (wn > sizeof wplan_b) wn = sizeof wplan_b;
+  if (wn) memcpy(wplan_b, wp, wn);
+  wplan_n = wn; wplan_pos = 0;
+  plan_p = plan; plan_n = pn; plan_pos = 0;
+  scan_pos = 0; cur_scan = 0; ent_pos = 0; in_cleanup = 0;
+  fputs("Q ", h_out);
+  if (!nrd) fputc('-', h_out);
+  for (int i = 0; i < nrd; i++) {
+    if (i) fputc('.', h_out);
+    fputc(rds[i].kind, h_out);
+    if (rds[i].kind == 'd' && rds[i].len) h_hex(rd_bytes + rds[i].off, rds[i].len);
+  }
+  fputc(' ', h_out); h_hex(wplan_b, wplan_n); fputc(' ', h_out); h_hex(plan, pn); fputc(' ', h_out); print_scans(); fputc(' ', h_out);
+  first_ev = 1;
+  int rc;
+  h_exit_armed = 1;
+  if (setjmp(h_jb) == 0) rc = qmail_clean_main(); else rc = 1000 + h_exitcode;
+  h_exit_armed = 0;
+  io_mode = 0;
+  if (!first_ev) fputc(',', h_out);
+  fprintf(h_out, "e%d\n", rc);
+}
+
 static int unhex(const char *h, unsigned char *o) {
   int n = 0;
   if (h[0] == '-') return 0;
@@ -221,6 +296,19 @@ int main(int argc, char **argv) {
     while (fgets(line, sizeof line, stdin)) {
       int chunk;
       scs[0] = 0;
+      if (line[0] == 'Q' && line[1] == ' ') {
+        static char rs[400000], wpl[9000]; static unsigned char wb[4500], tmp[300];
+        if (sscanf(line, "%15s %399999s %8999s %3999s %39999s", tag, rs, wpl, pl, scs) < 4) continue;
+        int wn = unhex(wpl, wb), pn = unhex(pl, pb);
+        parse_scans(scs);
+        rs_reset();
+        if (strcmp(rs, "-")) for (char *t = strtok(rs, "."); t; t = strtok(0, ".")) {
+          if (t[0] == 'd') { if (strlen(t + 1) > 512) t[513] = 0; int k = unhex(t[1] ? t + 1 : "-", tmp); rs_add('d', tmp, k); }
+          else if (t[0] == 'i' || t[0] == 'x') rs_add(t[0], 0, 0);
+        }
+        one_io(wb, wn, pb, pn);
+        continue;
+      }
       if (sscanf(line, "%15s %d %3999s %399999s %39999s", tag, &chunk, pl, hx, scs) < 4 || tag[0] != 'C' || tag[1]) continue;
       int pn = unhex(pl, pb);
       parse_scans(scs);
@@ -342,6 +430,91 @@ int main(int argc, char **argv) {
         }
       }
       one(b, n, (int[]){0, 0, 1, 7, 255}[h_below(5)], plan, pn);
+    }
+    nscans = 0;
+  }
+  /* (6) read/write faults (session 4).  (a) seed-independent: four sessions; for every cut position j of the byte stream
+   *     {nothing, EINTR, EIO, end of file} between byte j-1 and byte j, the rest in reads of 256/1/3 bytes; with every write()
+   *     index k: {all delivered, write k fails, write k interrupted once, interrupted twice, interrupted then fails}; three
+   *     unlink plans.  (b) seeded random sessions: random read sizes, EINTR anywhere, EIO/EOF at a random place, random write
+   *     and unlink outcomes, pid/ listings. */
+  {
+    static unsigned char big[1024]; size_t bign = 0;
+    for (int q = 0; q < 33; q++) bign += sprintf((char *)big + bign, q % 3 ? "todo/%d" : "foop/%d", q) + 1;
+    struct { const unsigned char *b; size_t n; int nw; } base[4] = {
+      { (const unsigned char *)"foop/12\0todo/7\0x\0", 17, 3 },
+      { (const unsigned char *)"todo/5\0foop/18446744073709551617\0foop/3\0", 40, 3 },
+      { (const unsigned char *)"\0foop/1", 7, 1 },
+      { big, bign, 33 } };
+    static const unsigned char uplans[3][4] = { {0, 0, 0, 0}, {0, 2, 0, 0}, {1, 0, 2, 0} };
+    static const char mids[4] = { 0, 'i', 'x', 'd' };
+    static const int chunks[3] = { 0, 1, 3 };
+    for (int bi = 0; bi < 4; bi++) {
+      size_t step = bi == 3 ? 13 : 1;
+      for (size_t j = 0; j <= base[bi].n; j += step) for (int mi = 0; mi < 4; mi++) for (int ci = 0; ci < 3; ci++)
+        for (int k = -1; k < base[bi].nw; k += (bi == 3 && k >= 0 ? 8 : 1)) for (int wk = 0; wk < (k < 0 ? 1 : 4); wk++, id++) {
+          if ((int)(id % nshards) != shard) continue;
+          unsigned char wp[64]; size_t wn = 0;
+          if (k >= 0) {
+            memset(wp, 0, sizeof wp); wn = k;
+            if (wk == 0) wp[wn++] = 2;
+            else if (wk == 1) wp[wn++] = 1;
+            else if (wk == 2) { wp[wn++] = 1; wp[wn++] = 1; }
+            else { wp[wn++] = 1; wp[wn++] = 2; }
+          }
+          rs_reset();
+          rs_chunks(base[bi].b, j, chunks[ci]);
+          if (mids[mi]) rs_add(mids[mi], 0, 0);
+          rs_chunks(base[bi].b + j, base[bi].n - j, chunks[(ci + 1) % 3]);
+          nscans = 0;
+          if (bi == 3) { nscans = 2; for (int i = 0; i < 2; i++) { scans[i].now = 1700000000; scans[i].open_ok = 1; scans[i].nent = 1;
+                           strcpy(scans[i].ent[0].name, i ? "77" : "4711"); scans[i].ent[0].statok = 1; scans[i].ent[0].atime = 1600000000; } }
+          one_io(wp, wn, uplans[(j + mi) % 3], 4);
+        }
+    }
+    nscans = 0;
+    for (int r = 0; r < nrandom / 4; r++) {
+      if ((r % nshards) != shard) continue;
+      static unsigned char b[4096]; size_t n = 0;
+      unsigned char plan[12]; int pn = h_below(3) ? 0 : 1 + h_below(10);
+      for (int i = 0; i < pn; i++) plan[i] = h_below(3);
+      int nreq = (int[]){ 0, 1, 2, 3, 5, 8, 31, 40 }[h_below(8)];
+      for (int q = 0; q < nreq; q++) {
+        int k = h_below(8);
+        if (k < 4) n += sprintf((char *)b + n, "%s%u", (k & 1) ? "todo/" : "foop/", h_below(50)) + 1;
+        else if (k == 4) { b[n++] = 'x'; b[n++] = 0; }
+        else if (k == 5) n += sprintf((char *)b + n, "foop/%s", numbers[h_below(NNUM)]) + 1;
+        else if (k == 6) { int d = 95 + h_below(170); memcpy(b + n, "todo/", 5); n += 5; for (int i = 0; i < d; i++) b[n++] = '0' + h_below(10); b[n++] = 0; }
+        else b[n++] = 0;
+      }
+      if (!h_below(3)) n += sprintf((char *)b + n, "foop/%u", h_below(50));          /* an unterminated tail */
+      rs_reset();
+      int mode = h_below(4);                                                        /* read sizes */
+      size_t stop = h_below(3) ? n + 1 : h_below(n + 1);                            /* EIO / EOF in the middle of a third */
+      char stopk = h_below(2) ? 'x' : 'd';
+      for (size_t i = 0; i < n; ) {
+        if (i >= stop) { rs_add(stopk, 0, 0); stop = n + 1; if (h_below(2)) continue; }
+        if (!h_below(mode == 0 ? 30 : 6)) rs_add('i', 0, 0);
+        size_t c = mode == 0 ? 256 : mode == 1 ? 1 + h_below(3) : mode == 2 ? 1 + h_below(40) : 1 + h_below(256);
+        if (c > n - i) c = n - i;
+        if (stop <= n && i + c > stop && stop > i) c = stop - i;
+        rs_add('d', b + i, c); i += c;
+      }
+      if (!h_below(4)) rs_add(h_below(2) ? 'i' : 'x', 0, 0);
+      unsigned char wp[48]; size_t wn = h_below(3) ? h_below(2 * nreq + 2) : 0;
+      if (wn > sizeof wp) wn = sizeof wp;
+      for (size_t i = 0; i < wn; i++) wp[i] = (unsigned char[]){ 0, 0, 0, 0, 0, 1, 1, 2 }[h_below(i + 1 == wn ? 8 : 7)];
+      nscans = h_below(3);
+      for (int i = 0; i < nscans; i++) {
+        struct h_scan *sc = &scans[i];
+        sc->now = 1700000000; sc->open_ok = h_below(5) != 0; sc->nent = sc->open_ok ? h_below(4) : 0;
+        for (int j2 = 0; j2 < sc->nent; j2++) {
+          struct h_ent *e = &sc->ent[j2];
+          sprintf(e->name, "%u", h_below(100000)); e->statok = h_below(6) != 0;
+          e->atime = e->statok ? sc->now - OSS - 5 + (long)h_below(10) : 0;
+        }
+      }
+      one_io(wp, wn, plan, pn);
     }
     nscans = 0;
   }
